@@ -43,6 +43,11 @@ func H18_retained_update() {
 	in2 := vrtNewInproc()
 	b.svr.Subscribe("r", 1, &in2.fn)
 	vrtQuiesce()
+	// the retained message is cleared while new subscriptions look it up
+	s2.peerSend(specEncode(&specPkt{Typ: specSUBSCRIBE, ID: 3, Topics: [][]byte{[]byte("r")}, QoS: []byte{0}}))
+	s3.peerSend(specEncode(&specPkt{Typ: specSUBSCRIBE, ID: 2, Topics: [][]byte{[]byte("#")}, QoS: []byte{1}}))
+	p.peerSend(specEncode(&specPkt{Typ: specPUBLISH, Flags: 1, Topic: []byte("r")}))
+	vrtQuiesce()
 	vrtReach("C18.retained_update")
 }
 
